@@ -1,3 +1,243 @@
-(* C04 — placeholder replaced below once MgmtProofs is in place *)
-From Coq Require Import List.
-From PyCasbin Require Import Base Mgmt.
+(* C15 — the RBAC query API agrees with enforcement.
+   All statements are about the model functions of Mgmt.v that the correspondence check runs against the
+   real Enforcer: get_implicit_roles / get_implicit_permissions / get_implicit_users_for_permission /
+   rmk_get_roles / rmk_get_users / enforce_ex_m.  No bound on the number of names, rules or assignments,
+   nor on the shape of the role graph.
+
+   Premises (each is explicit, each is shown satisfiable and — where it is not the property's own
+   premise — necessary):
+     Inv k s          the role managers reflect the grouping rules: holds after EVERY admissible management
+                      history (C04_history_keeps_links_in_sync), per-domain caches included;
+     rbac_kind k      matcher g(r.sub,p.sub[,r.dom]) && [r.dom==p.dom &&] r.obj==p.obj && r.act==p.act,
+                      no effect column, no priority, effect some(where (p.eft == allow));
+     wf_p k s         every permission rule has the declared number of fields;
+     m_enabled s      enforcement is switched on;
+     shallow ls u     "within the hierarchy depth bound": whatever is reachable from u is reachable in
+                      fewer than max_hierarchy_level (10) assignments;
+     u <> "", d <> "", no assignment names "" as a role, the permission names something:
+                      "" is get_filtered_policy's wildcard and the value of every field of the fictitious
+                      rule the empty-policy branch of enforce matches against. *)
+From Coq Require Import List NArith Bool.
+From PyCasbin Require Import Base Effect Enforce Policy PolicyProofs RoleGraph Mgmt MgmtLinks MgmtProofs
+  DomainProofs RbacProofs.
+Import ListNotations.
+Local Open Scope N_scope.
+
+(* ---------- get_implicit_roles_for_user ---------- *)
+
+(* the call never fails (the fuel of the model's loop suffices), reports every role once, and reports
+   exactly the names reachable from the user by at least one assignment; with domains: assignments of
+   the queried domain only (links_at k s d) *)
+Theorem C15_implicit_roles_is_reach : forall k s u d, k_g k = true -> k_g2 k = false -> Inv k s ->
+  exists roles s', get_implicit_roles k s u d = Ok (roles, s')
+    /\ NoDup roles
+    /\ (forall r, In r roles <-> exists n, path (link_edge (links_at k s d)) (S n) u r)
+    /\ Inv k s' /\ same_stores s s'.
+Proof. exact implicit_roles_reach. Qed.
+Print Assumptions C15_implicit_roles_is_reach.
+
+(* the edges of that statement are exactly the grouping rules: [a; b] in g, resp. [a; b; d] in g *)
+Theorem C15_assignments_are_grouping_rules : forall k s a b d, Inv k s ->
+  link_edge (links_at k s d) a b <-> In (if k_dom k then [a; b; d] else [a; b]) (m_g s).
+Proof. exact assignments_are_grouping_rules. Qed.
+Print Assumptions C15_assignments_are_grouping_rules.
+
+(* ---------- get_implicit_permissions_for_user ---------- *)
+
+(* exactly the rules (of the domain) whose subject is the user or reachable from the user *)
+Theorem C15_implicit_permissions_exact : forall k s u d,
+  rbac_kind k -> Inv k s -> wf_p k s -> dom_ok k d -> u <> 0 -> no_empty_role (links_at k s d) ->
+  exists perms s', get_implicit_permissions k s u d = Ok (perms, s')
+    /\ Inv k s' /\ same_stores s s'
+    /\ forall r, In r perms <->
+         In r (m_p s) /\ (exists n, path (link_edge (links_at k s d)) n u (fld r 0))
+         /\ (k_dom k = true -> fld r 1 = d).
+Proof. exact implicit_permissions_scoped. Qed.
+Print Assumptions C15_implicit_permissions_exact.
+
+(* ---------- enforce <-> implicit permissions ---------- *)
+
+(* generic form (mk_req builds [u; o; a] or [u; d; o; a]) *)
+Theorem C15_enforce_iff_implicit_permission : forall k s u d o a,
+  rbac_kind k -> Inv k s -> wf_p k s -> m_enabled s = true -> dom_ok k d ->
+  u <> 0 -> no_empty_role (links_at k s d) -> shallow (links_at k s d) u ->
+  exists perms s' b,
+    get_implicit_permissions k s u d = Ok (perms, s')
+    /\ decision_of (snd (enforce_ex_m k s (mk_req k u d o a))) = Ok b
+    /\ (b = true <-> exists r, In r perms /\ fld r (i_obj k) = o /\ fld r (i_act k) = a).
+Proof. exact enforce_iff_implicit_permission. Qed.
+Print Assumptions C15_enforce_iff_implicit_permission.
+
+(* RBAC: enforce(u, o, a) is allowed exactly when some rule of get_implicit_permissions_for_user(u)
+   has object o and action a; neither call raises *)
+Theorem C15_enforce_iff_implicit_permission_rbac : forall k s u o a,
+  rbac_kind k -> k_dom k = false -> Inv k s -> wf_p k s -> m_enabled s = true ->
+  u <> 0 -> no_empty_role (glinks (m_g s)) -> shallow (glinks (m_g s)) u ->
+  exists perms s' b,
+    get_implicit_permissions k s u 0 = Ok (perms, s')
+    /\ decision_of (snd (enforce_ex_m k s [u; o; a])) = Ok b
+    /\ (b = true <-> exists r, In r perms /\ fld r 1 = o /\ fld r 2 = a).
+Proof. exact enforce_iff_implicit_permission_plain. Qed.
+Print Assumptions C15_enforce_iff_implicit_permission_rbac.
+
+(* RBAC with domains: the same per domain — only the assignments and rules of domain d count *)
+Theorem C15_enforce_iff_implicit_permission_domain : forall k s u d o a,
+  rbac_kind k -> k_dom k = true -> Inv k s -> wf_p k s -> m_enabled s = true ->
+  d <> 0 -> u <> 0 -> no_empty_role (glinks_dom (m_g s) d) -> shallow (glinks_dom (m_g s) d) u ->
+  exists perms s' b,
+    get_implicit_permissions k s u d = Ok (perms, s')
+    /\ decision_of (snd (enforce_ex_m k s [u; d; o; a])) = Ok b
+    /\ (b = true <-> exists r, In r perms /\ fld r 2 = o /\ fld r 3 = a).
+Proof. exact enforce_iff_implicit_permission_domain. Qed.
+Print Assumptions C15_enforce_iff_implicit_permission_domain.
+
+(* the depth premise is decidable on the running enforcer (every implicit role is recognised by g) ... *)
+Theorem C15_depth_premise_decidable : forall k s u d, k_g k = true -> k_g2 k = false -> Inv k s ->
+  depth_okb k s u d = true <-> shallow (links_at k s d) u.
+Proof. exact depth_okb_shallow. Qed.
+Print Assumptions C15_depth_premise_decidable.
+
+(* ... holds of EVERY role graph with fewer than max_hierarchy_level assignments, cycles included ... *)
+Theorem C15_small_graph_within_depth_bound : forall ls u, (length ls < MAXLVL)%nat -> shallow ls u.
+Proof. exact small_graph_shallow. Qed.
+Print Assumptions C15_small_graph_within_depth_bound.
+
+(* ... and cannot be dropped: with a chain of ten assignments all other premises hold, the permission of
+   the tenth role is listed for alice, enforce refuses it (and grants the ninth role's) *)
+Theorem C15_enforce_iff_implicit_permission_refuted_beyond_depth_bound :
+  rbac_kind k_rbac15 /\ Inv k_rbac15 deep_state /\ wf_p k_rbac15 deep_state /\ m_enabled deep_state = true
+  /\ dom_ok k_rbac15 0 /\ 1003 <> 0 /\ no_empty_role (links_at k_rbac15 deep_state 0)
+  /\ (exists perms s', get_implicit_permissions k_rbac15 deep_state 1003 0 = Ok (perms, s')
+        /\ In [2010; 1008; 1011] perms)
+  /\ decision_of (snd (enforce_ex_m k_rbac15 deep_state (mk_req k_rbac15 1003 0 1008 1011))) = Ok false
+  /\ decision_of (snd (enforce_ex_m k_rbac15 deep_state (mk_req k_rbac15 1003 0 1009 1011))) = Ok true
+  /\ ~ shallow (links_at k_rbac15 deep_state 0) 1003.
+Proof. exact depth_premise_needed. Qed.
+Print Assumptions C15_enforce_iff_implicit_permission_refuted_beyond_depth_bound.
+
+(* names must be non-empty: for the user "" every rule is reported, none is granted *)
+Theorem C15_enforce_iff_implicit_permission_refuted_for_empty_name :
+  Inv k_rbac15 empty_name_state /\ wf_p k_rbac15 empty_name_state
+  /\ match get_implicit_permissions k_rbac15 empty_name_state 0 0 with
+     | Ok (perms, _) => perms = [[1003; 1008; 1011]] | Err _ => False end
+  /\ decision_of (snd (enforce_ex_m k_rbac15 empty_name_state (mk_req k_rbac15 0 0 1008 1011))) = Ok false.
+Proof. exact empty_user_name_refuted. Qed.
+Print Assumptions C15_enforce_iff_implicit_permission_refuted_for_empty_name.
+
+(* ---------- get_implicit_users_for_permission ---------- *)
+
+(* returns, once each, exactly the names that are not the role of any assignment and for which enforce
+   allows the permission (such a name is necessarily the subject of a rule or of an assignment);
+   perm = [o; a] resp. [d; o; a] *)
+Theorem C15_users_for_permission_exact : forall k s perm,
+  rbac_kind k -> Inv k s -> wf_p k s -> m_enabled s = true ->
+  length perm = pred (r_arity k) -> perm_named perm ->
+  exists users s', get_implicit_users_for_permission k s perm = (s', Ok users)
+    /\ NoDup users
+    /\ forall u, In u users <->
+         (~ exists r, In r (m_g s) /\ fld r 1 = u)
+         /\ decision_of (snd (enforce_ex_m k s (u :: perm))) = Ok true.
+Proof. exact users_for_permission_exact. Qed.
+Print Assumptions C15_users_for_permission_exact.
+
+(* the permission must name something: on the empty policy enforce grants ("", "", "") to "" *)
+Theorem C15_users_for_permission_refuted_for_unnamed_permission :
+  let s := init k_rbac15 [] in
+  Inv k_rbac15 s /\ wf_p k_rbac15 s
+  /\ decision_of (snd (enforce_ex_m k_rbac15 s [0; 0; 0])) = Ok true
+  /\ snd (get_implicit_users_for_permission k_rbac15 s [0; 0]) = Ok [].
+Proof. exact unnamed_permission_refuted. Qed.
+Print Assumptions C15_users_for_permission_refuted_for_unnamed_permission.
+
+(* ---------- get_roles_for_user / get_users_for_role (and _in_domain) ---------- *)
+
+(* inverse views of the same assignments = the grouping rules (of the domain); each name once *)
+Theorem C15_roles_users_inverse : forall k s u r d, Inv k s ->
+  (In r (fst (rmk_get_roles (m_rm s) u d)) <-> In u (fst (rmk_get_users (m_rm s) r d)))
+  /\ (In r (fst (rmk_get_roles (m_rm s) u d)) <-> In (if k_dom k then [u; r; d] else [u; r]) (m_g s))
+  /\ NoDup (fst (rmk_get_roles (m_rm s) u d)) /\ NoDup (fst (rmk_get_users (m_rm s) r d)).
+Proof. exact roles_users_inverse_views. Qed.
+Print Assumptions C15_roles_users_inverse.
+
+(* ---------- over histories ---------- *)
+
+(* after ANY admissible management history from a fresh enforcer the role queries are exact *)
+Theorem C15_role_queries_after_any_history : forall k db ops u d,
+  k_g k = true -> k_g2 k = false -> forallb (op_ok k) ops = true ->
+  let s := fst (run k (init k db) ops) in
+  (exists roles s', get_implicit_roles k s u d = Ok (roles, s')
+     /\ NoDup roles
+     /\ forall r, In r roles <-> exists n, path (link_edge (links_at k s d)) (S n) u r)
+  /\ (forall r, In r (fst (rmk_get_roles (m_rm s) u d)) <-> In u (fst (rmk_get_users (m_rm s) r d))).
+Proof. exact role_queries_after_any_history. Qed.
+Print Assumptions C15_role_queries_after_any_history.
+
+(* ---------- non-vacuity ---------- *)
+
+(* RBAC, built by management calls: alice -> admin -> editor -> alice (a cycle), bob -> editor;
+   editor may read data1, bob may write data2.  All premises hold for alice; she may read data1 and
+   that is among her implicit permissions; she may not write data2 and that is not. *)
+Definition ex_ops : list op :=
+  [OAdd 1 [1003; 1006]; OAdd 1 [1006; 1007]; OAdd 1 [1007; 1003]; OAdd 1 [1004; 1007];
+   OAdd 0 [1007; 1008; 1011]; OAdd 0 [1004; 1009; 1012]; ORemove 1 [1004; 1007]; OAddRoleForUser 1004 1007].
+Definition ex_state : mstate := fst (run k_rbac15 (init k_rbac15 []) ex_ops).
+
+Example C15_example_rbac :
+  rbac_kind k_rbac15 /\ Inv k_rbac15 ex_state /\ wf_p k_rbac15 ex_state /\ m_enabled ex_state = true
+  /\ no_empty_role (glinks (m_g ex_state)) /\ shallow (glinks (m_g ex_state)) 1003
+  /\ (forall roles s', get_implicit_roles k_rbac15 ex_state 1003 0 = Ok (roles, s') -> roles = [1006; 1007; 1003])
+  /\ (forall perms s', get_implicit_permissions k_rbac15 ex_state 1003 0 = Ok (perms, s') -> perms = [[1007; 1008; 1011]])
+  /\ decision_of (snd (enforce_ex_m k_rbac15 ex_state [1003; 1008; 1011])) = Ok true
+  /\ decision_of (snd (enforce_ex_m k_rbac15 ex_state [1003; 1009; 1012])) = Ok false
+  /\ snd (get_implicit_users_for_permission k_rbac15 ex_state [1008; 1011]) = Ok [1004]
+  /\ perm_named [1008; 1011].
+Proof.
+  split; [apply rbac_kind_rbac15|].
+  split; [apply run_inv; [apply init_inv|vm_compute; reflexivity]|].
+  split; [apply wf_pb_ok; vm_compute; reflexivity|]. split; [vm_compute; reflexivity|].
+  split; [apply no_empty_roleb_ok; vm_compute; reflexivity|].
+  split; [apply small_graph_shallow; vm_compute; repeat constructor|].
+  split; [intros roles s' H;
+          assert (E : match get_implicit_roles k_rbac15 ex_state 1003 0 with Ok (r, _) => r | Err _ => [] end = [1006; 1007; 1003])
+            by (vm_compute; reflexivity); rewrite H in E; exact E|].
+  split; [intros perms s' H;
+          assert (E : match get_implicit_permissions k_rbac15 ex_state 1003 0 with Ok (r, _) => r | Err _ => [] end = [[1007; 1008; 1011]])
+            by (vm_compute; reflexivity); rewrite H in E; exact E|].
+  split; [vm_compute; reflexivity|]. split; [vm_compute; reflexivity|]. split; [vm_compute; reflexivity|].
+  exists 1008. split; [left; reflexivity|discriminate].
+Qed.
+
+(* RBAC with domains: alice is admin in d1 only; admin may read data1 in d1 and in d2.  Queries in d2
+   have built d2's cache before the d1 assignment is added. *)
+Definition ex_dom_ops : list op :=
+  [OAdd 0 [1006; 1013; 1008; 1011]; OAdd 0 [1006; 1014; 1008; 1011]; QEnforce [1003; 1014; 1008; 1011];
+   OAddRoleForUserInDomain 1003 1006 1013; OAddRoleForUserInDomain 1004 1006 1014; QRolesDom 1003 1013].
+Definition ex_dom_state : mstate := fst (run k_dom15 (init k_dom15 []) ex_dom_ops).
+
+Example C15_example_domain :
+  rbac_kind k_dom15 /\ Inv k_dom15 ex_dom_state /\ wf_p k_dom15 ex_dom_state /\ m_enabled ex_dom_state = true
+  /\ no_empty_role (glinks_dom (m_g ex_dom_state) 1013) /\ shallow (glinks_dom (m_g ex_dom_state) 1013) 1003
+  /\ no_empty_role (glinks_dom (m_g ex_dom_state) 1014) /\ shallow (glinks_dom (m_g ex_dom_state) 1014) 1003
+  /\ decision_of (snd (enforce_ex_m k_dom15 ex_dom_state [1003; 1013; 1008; 1011])) = Ok true
+  /\ decision_of (snd (enforce_ex_m k_dom15 ex_dom_state [1003; 1014; 1008; 1011])) = Ok false
+  /\ (forall perms s', get_implicit_permissions k_dom15 ex_dom_state 1003 1013 = Ok (perms, s') -> perms = [[1006; 1013; 1008; 1011]])
+  /\ (forall perms s', get_implicit_permissions k_dom15 ex_dom_state 1003 1014 = Ok (perms, s') -> perms = [])
+  /\ fst (rmk_get_users (m_rm ex_dom_state) 1006 1013) = [1003]
+  /\ fst (rmk_get_users (m_rm ex_dom_state) 1006 1014) = [1004].
+Proof.
+  split; [apply rbac_kind_dom15|].
+  split; [apply run_inv; [apply init_inv|vm_compute; reflexivity]|].
+  split; [apply wf_pb_ok; vm_compute; reflexivity|]. split; [vm_compute; reflexivity|].
+  split; [apply no_empty_roleb_ok; vm_compute; reflexivity|].
+  split; [apply small_graph_shallow; vm_compute; repeat constructor|].
+  split; [apply no_empty_roleb_ok; vm_compute; reflexivity|].
+  split; [apply small_graph_shallow; vm_compute; repeat constructor|].
+  split; [vm_compute; reflexivity|]. split; [vm_compute; reflexivity|].
+  split; [intros perms s' H;
+          assert (E : match get_implicit_permissions k_dom15 ex_dom_state 1003 1013 with Ok (r, _) => r | Err _ => [] end = [[1006; 1013; 1008; 1011]])
+            by (vm_compute; reflexivity); rewrite H in E; exact E|].
+  split; [intros perms s' H;
+          assert (E : match get_implicit_permissions k_dom15 ex_dom_state 1003 1014 with Ok (r, _) => r | Err _ => [] end = [])
+            by (vm_compute; reflexivity); rewrite H in E; exact E|].
+  split; vm_compute; reflexivity.
+Qed.
